@@ -32,7 +32,7 @@ func vh_C11_L1_counter_exact() {
 			vassert(err == nil, "no limit configured: push never reports a limit error")
 		case 2:
 			if vPick(2) == 0 {
-				buf := make([]byte, 8)
+				buf := make([]byte, 8*vPick(2)) // adequate or too short
 				before := r.getNumBytes()
 				n, _, err := r.read(buf)
 				if err == nil {
@@ -102,12 +102,17 @@ func vh_C11_L4_entry_limit_abort() {
 	a, _ := vNewAssocOpts(vAssocOpts{interleaving: il, maxEntries: limit})
 	cum := a.peerLastTSN()
 	unordered := vPick(2) == 1
-	// limit+1 incomplete single fragments of distinct messages
+	sameMsg := !il && !unordered && vPick(2) == 1 // fragments of one ordered DATA message, or of distinct messages
+	// limit+1 incomplete fragments
 	for i := uint32(0); i <= limit; i++ {
 		c := vDataChunk(a, cum+2+2*i, 4, unordered, 3)
 		c.endingFragment = false
 		c.streamSequenceNumber = uint16(i)
 		c.messageIdentifier = i
+		if sameMsg {
+			c.streamSequenceNumber = 0
+			c.beginningFragment = false
+		}
 		before := 0
 		if s := a.streams[4]; s != nil {
 			before = s.getNumBytesInReassemblyQueue()
@@ -128,3 +133,6 @@ func vh_C11_L4_entry_limit_abort() {
 	vassert(a.getMyReceiverWindowCredit() == a.maxReceiveBufferSize-3*limit, "advertised credit reflects exactly the stored fragments")
 	vcover("end")
 }
+
+// C11.L1b: a short-buffer read leaves the counter untouched (same obligation as vh_C18_L3).
+func vh_C11_L1_short_read_keeps_counter() { vh_C18_L3_short_buffer() }
